@@ -35,19 +35,23 @@ type c10Case struct {
 	ShutdownAt  int    `json:"shutdown_at"` // the application requests shutdown after this many deliveries (0 = not before the end)
 	ReadYield   int    `json:"read_yield"`
 	EmptyReads  int    `json:"empty_reads"` // > 0: every n-th read returns no bytes and no error
+	Virtual     bool   `json:"virtual"`     // run in a virtual-time bubble with a consumer that stays away for StallSec seconds before every StallEvery-th message
+	StallEvery  int    `json:"stall_every"`
+	StallSec    int    `json:"stall_sec"`
 	ParseBefore int    `json:"parse_before"`
 	ParseAfter  int    `json:"parse_after"`
 }
 
 func init() {
 	fw.Register(&fw.Prop{
-		ID:       "C10",
-		Race:     true,
-		Rule:     "one real MessageStream per case over a scripted in-memory connection: 1..600 conformant frames with unique transaction ids (all switch-originated kinds; sizes 8 bytes .. 60 KiB, below, at and far beyond the pool buffers' 2 KiB), the byte stream cut into reads by a plan (every byte alone; cuts 1, 2 and 3 bytes into each length prefix; cuts mid-body; full 2 KiB reads holding many frames; exact frame boundaries; PRNG mix), an optional incomplete trailing frame, consumers that are eager, slow or bursty (so that all pool buffers are in flight), yields around the parser calls, GOMAXPROCS 1/2/4/16, and the connection either staying open or failing (EOF / unexpected EOF / reset) after a planned byte. Events (reads returned, deliveries, errors) carry one logical clock; verdicts are taken at logical quiescence (every goroutine parked, clock stable), never by a timeout. Built with the race detector. distinct = hash(case parameters); non-trivial = at least 2 frames and at least one read boundary inside a frame",
-		NumCases: func(tier string, seed uint64) int { return nCases(tier, 1400, 120000) },
-		Gen:      c10Gen,
-		NewCase:  func() any { return new(c10Case) },
-		Eval:     c10Eval,
+		ID:          "C10",
+		Race:        true,
+		VirtualTime: true,
+		Rule:        "one real MessageStream per case over a scripted in-memory connection: 1..600 conformant frames with unique transaction ids (all switch-originated kinds; sizes 8 bytes .. 60 KiB, below, at and far beyond the pool buffers' 2 KiB), the byte stream cut into reads by a plan (every byte alone; cuts 1, 2 and 3 bytes into each length prefix; cuts mid-body; full 2 KiB reads holding many frames; exact frame boundaries; PRNG mix), an optional incomplete trailing frame, consumers that are eager, slow or bursty (so that all pool buffers are in flight), yields around the parser calls, GOMAXPROCS 1/2/4/16, and the connection either staying open or failing (EOF / unexpected EOF / reset) after a planned byte. Events (reads returned, deliveries, errors) carry one logical clock; verdicts are taken at logical quiescence (every goroutine parked, clock stable), never by a timeout. Built with the race detector. distinct = hash(case parameters); non-trivial = at least 2 frames and at least one read boundary inside a frame",
+		NumCases:    func(tier string, seed uint64) int { return nCases(tier, 1400, 120000) },
+		Gen:         c10Gen,
+		NewCase:     func() any { return new(c10Case) },
+		Eval:        c10Eval,
 		Minimum: func(a *fw.Agg) error {
 			if a.Counters["streams"] < 100 || a.Counters["frames_delivered"] < 5000 || a.Maxes["max_concurrent_parsers"] < 2 || a.Counters["streams_out_of_order"] < 1 || a.Counters["failing_streams"] < 10 {
 				return fmt.Errorf("too little observed: streams=%d delivered=%d max_parsers=%d out_of_order=%d failing=%d", a.Counters["streams"], a.Counters["frames_delivered"], a.Maxes["max_concurrent_parsers"], a.Counters["streams_out_of_order"], a.Counters["failing_streams"])
@@ -104,6 +108,16 @@ func c10Gen(tier string, seed uint64, i int) any {
 	}
 	c.ReadYield = r.Pick(0, 0, 1, 3)
 	c.EmptyReads = r.Pick(0, 0, 0, 1, 2, 3, 7)
+	if i%9 == 4 {
+		c.Virtual, c.Consumer = true, "stall"
+		c.StallEvery, c.StallSec = r.Pick(1, 2, 7, 51), r.Pick(1, 11, 61, 3600, 86400)
+		if c.Frames > 120 {
+			c.Frames = 120
+		}
+		// (the library closes its Outbound channel ten minutes after a shutdown: an application that still sends
+		// then panics by design, and in virtual time "then" is at once, so these cases send nothing)
+		c.Outbound = 0
+	}
 	c.ParseBefore = r.Pick(0, 0, 1, 5)
 	c.ParseAfter = r.Pick(0, 0, 1, 5)
 	return c
@@ -251,6 +265,28 @@ func c10Cuts(cs *c10Case, frames [][]byte, total int) []int {
 
 func c10Eval(c *fw.Ctx, data any) {
 	cs := data.(*c10Case)
+	if cs.Virtual {
+		// the whole stream lives in a virtual-time bubble: the application stays away for seconds to hours between
+		// deliveries, and whatever timers the library arms meanwhile fire in logical time
+		ran, leak := bubble(func(wait func()) { c10Run(c, cs, wait) })
+		if ran {
+			c.Count("virtual_time_streams", 1)
+			if leak != "" {
+				c.Count("virtual_time_streams_leaving_goroutines_behind", 1)
+				c.Set("virtual_time_leak_reports", leak)
+			}
+			c.Recycle()
+			return
+		}
+		c.Count("virtual_time_cases_run_in_real_time", 1)
+		cp := *cs
+		cp.Virtual, cp.Consumer = false, "slow"
+		cs = &cp
+	}
+	c10Run(c, cs, nil)
+}
+
+func c10Run(c *fw.Ctx, cs *c10Case, vtWait func()) {
 	defer recycleEvery(c, 60)
 	old := runtime.GOMAXPROCS(cs.Procs)
 	defer runtime.GOMAXPROCS(old)
@@ -297,11 +333,12 @@ func c10Eval(c *fw.Ctx, data any) {
 	c.Set("consumers", cs.Consumer)
 	c.Set("gomaxprocs", fmt.Sprint(cs.Procs))
 
-	s := startStream(conn, cs.Consumer, cs.ParseBefore, cs.ParseAfter, cs.ShutdownAt)
+	s := startStream(conn, cs.Consumer, cs.ParseBefore, cs.ParseAfter, cs.ShutdownAt, cs.StallEvery, cs.StallSec)
 	if s == nil {
 		constructorWedged(c, "stream")
 		return
 	}
+	s.vtWait = vtWait
 	for k := 0; k < cs.Outbound; k++ { // the application also sends (echo replies): both directions share the connection
 		h := of.NewEchoReply()
 		select {
